@@ -12,8 +12,10 @@ def main():
     from . import build
     build.ensure()
     build.activate()
+    import bioscrape.types, bioscrape.simulator, bioscrape.lineage, bioscrape.inference  # noqa (before any fork)
+    import bioscrape.sbmlutil, bioscrape.analysis, bioscrape.pid_interfaces, bioscrape.inference_setup  # noqa
+    import scipy.linalg, scipy.integrate, scipy.stats  # noqa
     if a.setup:
-        import bioscrape.types, bioscrape.simulator, bioscrape.lineage, bioscrape.inference  # noqa
         print('setup ok')
         return 0
     if not a.pid:
